@@ -115,6 +115,7 @@ fn conventions_used(prog: &Prog) -> (std::collections::BTreeSet<String>, bool) {
 
 impl Prop for Conventions {
     type Case = Case;
+    crate::prog_shrink!();
     fn name(&self) -> String {
         "C16/conventions".into()
     }
